@@ -349,6 +349,7 @@ func checkC07(w *World, r *Run) {
 	ruleDrained := r.Rule("conditions-are-evaluated-on-drained-state", "F1",
 		"the outbox forwards PutObject, DeleteObject, CompleteMultipartUpload, CopyObject and AppendObject to the inner storage only after an error-checked drain covering the key's queued entries and the bucket-global ones", 5)
 	checkOutboxDrain(w, r, ruleDrained, map[string]bool{"PutObject": true, "DeleteObject": true, "CompleteMultipartUpload": true, "CopyObject": true, "AppendObject": true})
+	checkC07DeleteCondition(w, r)
 	checkCopyDateConditions(w, r)
 	r.NotCovered("interleavings of concurrent writers (the rules decide that the CAS and the unique index are on every conditional path, not the outcome of races); transaction isolation of the databases")
 	_ = types.Universe
